@@ -2,6 +2,7 @@ package checks
 
 import (
 	"fmt"
+	"time"
 
 	"saomc/replica"
 	"saomc/world"
@@ -13,6 +14,11 @@ import (
 	sdk "github.com/cosmos/cosmos-sdk/types"
 	stakingtypes "github.com/cosmos/cosmos-sdk/x/staking/types"
 )
+
+// wallNow is the wall clock when the harness process started. A proof dated relative to it flips between accepted
+// and "out of date" inside the explored clock offsets if (and only if) a handler reads the node's clock instead of
+// the block's: with the block time (2023 in these scripts) it is simply a future-dated proof on every replica.
+var wallNow = time.Now().Unix()
 
 func fx(name string, mk func(w *world.World) sdk.Msg) replica.TxSpec {
 	return replica.TxSpec{Name: name, Build: func(w *world.World, _ sdk.Context) sdk.Msg { return mk(w) }}
@@ -87,6 +93,11 @@ func ScriptStorage(long bool) *replica.Script {
 		fx("bind(sid,proof 16 min old,invalid)", func(w *world.World) sdk.Msg {
 			sd := world.NewSid("R2", "script-sid-2", ts-16*60)
 			return world.BindingMsg(sd, w.A(world.P), w.A(world.P), world.CosmosProof(w.A(world.P), sd.Did, "bind "+sd.Did, ts-16*60))
+		}),
+		fx("bind(sid,proof 5 wall-clock minutes old)", func(w *world.World) sdk.Msg {
+			wts := uint64(wallNow - 5*60)
+			sd := world.NewSid("R3", "script-sid-3", wts)
+			return world.BindingMsg(sd, w.A(world.V2), w.A(world.V2), world.CosmosProof(w.A(world.V2), sd.Did, "bind "+sd.Did, wts))
 		}),
 		fx("create(G)", func(w *world.World) sdk.Msg { return &nodetypes.MsgCreate{Creator: w.A(world.G).S()} }),
 		fx("reset(G)", func(w *world.World) sdk.Msg { return &nodetypes.MsgReset{Creator: w.A(world.G).S(), Status: GatewayStatus} }),
